@@ -277,6 +277,29 @@ Proof.
 Qed.
 
 (* everything the compiler produced, in one statement *)
+(* the table built with the compiled finish_item arm (Driver.table_of_src) is build_symtab *)
+From RM Require C11.Driver.
+Lemma src_finish_funcs_eq p l : forall acc, Forall wf_fraw l ->
+  RM.C11.Driver.src_finish_funcs p acc l = do r <- finish_funcs_gen true l; Ret (acc ++ r).
+Proof.
+  induction l as [|fr t IH]; intros acc Hwf; [cbn; rewrite app_nil_r; reflexivity|].
+  inversion Hwf as [|? ? Hfr Ht]; subst. destruct Hfr as (Ha & Hs & Hl & _).
+  cbn [RM.C11.Driver.src_finish_funcs finish_funcs_gen].
+  rewrite src_finish_function_eq by (cbn; assumption). cbn [fn_addr fn_size fn_psize fn_name].
+  replace (mk_fraw (fr_addr fr) (fr_size fr) (fr_psize fr) (fr_name fr) (fr_lines fr) (fr_inls fr)) with fr by (destruct fr; reflexivity).
+  fold finish_func. unfold finish_func.
+  destruct (finish_func_gen true fr) as [x| | |]; cbn [obind]; try reflexivity.
+  rewrite IH by exact Ht.
+  destruct (finish_funcs_gen true t) as [rest| | |]; cbn [obind]; try reflexivity.
+  destruct x; rewrite <- ?app_assoc, ?app_nil_r; reflexivity.
+Qed.
+Lemma src_build_symtab p rf : wf_file rf -> RM.C11.Driver.table_of_src p rf = build_symtab rf.
+Proof.
+  intros (Hf & _). unfold RM.C11.Driver.table_of_src, build_symtab, build_symtab_gen.
+  rewrite src_finish_funcs_eq by exact Hf. cbn [app].
+  destruct (finish_funcs_gen true (rf_funcs rf)); reflexivity.
+Qed.
+
 Lemma compiled_source_tie :
   (forall p acc cur lines inls, u64 (fn_addr cur) -> u32 (fn_size cur) -> Forall wf_line lines ->
      src_finish_function p acc cur lines inls =
